@@ -78,6 +78,7 @@ pub mod watchdog {
                     idle += 1;
                     if idle >= secs {
                         let phase = PHASE.lock().map(|p| p.clone()).unwrap_or_default();
+                        crate::obs::hang_dump();
                         println!("{}", serde_json::json!({"hang": phase, "idle_s": idle}));
                         std::process::exit(3);
                     }
